@@ -40,6 +40,7 @@ type Conn struct {
 	rd     io.Reader    // current read side (raw, TLS, snappy or deflate)
 	flush  func() error // extra flush of the compression layer
 	started bool
+	hold    chan struct{} // non-nil: the frame reader waits on it before every read (a consumer that stopped reading)
 	Neg    map[string]interface{} // negotiated features from the IDENTIFY response
 }
 
@@ -83,8 +84,11 @@ func readRawFrame(r io.Reader) (int32, []byte, error) {
 }
 
 func (cn *Conn) readLoop() {
-	r := bufio.NewReaderSize(cn.rd, 64*1024)
+	r := bufio.NewReaderSize(cn.rd, 4096)
 	for {
+		if h := cn.hold; h != nil {
+			<-h
+		}
 		var hdr [8]byte
 		if _, err := io.ReadFull(r, hdr[:]); err != nil {
 			cn.rerr = err
